@@ -2,6 +2,7 @@
 from __future__ import annotations
 
 import copy
+import json
 import itertools
 import sys
 from collections import Counter
@@ -17,6 +18,7 @@ import lightworks as lw
 from lightworks import emulator
 
 EPS = 1e-9
+TOL = 1e-10          # float accuracy of a probability (values are sums of < 100 terms of size <= 1)
 
 
 def dict_diff(a, b, tol):
@@ -29,37 +31,73 @@ def dict_diff(a, b, tol):
 
 def reference_distribution(U, n, full_in):
     """Independent reference: for every pattern on the n circuit modes, the sum over all
-    occupations of the loss modes of |permanent amplitude|^2. Returns (dist, all full-state probs)."""
+    occupations of the loss modes of |permanent amplitude|^2.
+    Returns (exact marginal, marginal with every full state of probability <= EPS dropped,
+    number of full states per pattern, all full-state probabilities)."""
     tot = sum(full_in)
     dim = U.shape[0]
-    dist = {}
+    dist, trunc, nlo = {}, {}, {}
     allp = []
-    for k in range(tot + 1):
-        pass
     for fo in fg.fock_states(dim, tot):
         p = abs(fg.amplitude_ref(U, full_in, fo)) ** 2
         allp.append(p)
         key = tuple(fo[:n])
         dist[key] = dist.get(key, 0.0) + p
-    return dist, allp
+        nlo[key] = nlo.get(key, 0) + 1
+        if p > EPS:
+            trunc[key] = trunc.get(key, 0.0) + p
+    return dist, trunc, nlo, allp
+
+
+# rational Givens rotations with a tiny off-diagonal amplitude s = 2ab/(a^2+b^2):
+# s^2 ~ 4e-10 (a state just BELOW the 1e-9 threshold) and s^2 ~ 2e-9 (just ABOVE)
+NEAR = [(100000, 1), (44721, 1)]
+
+
+def near_threshold_case(rng):
+    """A 3-mode circuit: tiny-angle beam splitter on modes 0,1 (exact rational unitary), then two loss
+    elements in series on one mode.  A photon reaches mode 1 with probability s^2 ~ 4e-10 or 2e-9, a second
+    photon can be lost in two different places, so that a pattern is made of several full states that are
+    individually below the threshold while their sum is above it (threshold must be applied per full state)."""
+    a, b = rng.choice(NEAR)
+    h = a * a + b * b
+    c, sn = [a * a - b * b, h], [2 * a * b, h]
+    z, one = [0, 1, 0, 1], [1, 1, 0, 1]
+    V = [[c + [0, 1], [-sn[0], sn[1], 0, 1], z],
+         [sn + [0, 1], c + [0, 1], z],
+         [z, z, one]]
+    lm = rng.choice([2, 2, 0])
+    prog = [["unitary", 0, 3, V], ["loss", 0, lm, rng.choice([2, 3, 4, 6])], ["loss", 0, lm, rng.choice([2, 3, 6, 8])]]
+    if rng.random() < 0.3:
+        prog.append(["loss", 0, 1, rng.choice([2, 4])])
+    inp = rng.choice([[1, 0, 1], [1, 0, 1], [1, 0, 0], [2, 0, 0], [1, 1, 0], [1, 0, 2], [2, 0, 1]])
+    return dict(kind="dist", prog=prog, cid=0, input=inp)
 
 
 class C04:
     ID = "C04"
     RULE = ("random circuit trees (0-4 loss elements anywhere incl. inside heralded sub-circuits, heralds with 0-2 photons, lossless too) x "
-            "inputs (vacuum, single, bunched, <= 3 photons) x both backends, ideal source; the whole dictionary is compared with the model and "
-            "with an independent permanent-based reference (marginalised over loss modes). Cases with a full-state probability within 0.1% of the "
-            "1e-9 threshold are skipped. Non-trivial = lossy circuit with >= 2 photons or heralded circuit; distinct = distinct JSON")
+            "inputs (vacuum, single, bunched, <= 3 photons) x both backends, ideal source; every 10th case is a deliberate near-threshold "
+            "circuit (exact rational tiny-angle beam splitter, full states of probability 4e-10 / 2e-9 / sums of sub-threshold states above "
+            "the threshold, two loss elements in series); the whole dictionary is compared with the model (1e-10) and "
+            "with an independent permanent-based reference (marginalised over loss modes, per-state truncation). Cases with a full-state "
+            "probability within 0.1% of the 1e-9 threshold are skipped. Non-trivial = lossy circuit with >= 2 photons or heralded circuit; distinct = distinct JSON")
     COQ_TARGETS = ["theories/Exec/RunFock.vo"]
     CHUNK = 20
     TRUSTED = ["thewalrus.perm is the mathematical permanent (the oracle recomputes it by direct expansion)",
                "the float-dependent branch total_prob < 1 changes a result by <= 1e-15 after the F1 repair and is inside the tolerance"]
     ASSUMPTIONS = ["settings.sampler_probability_threshold = 1e-9 (default)"]
 
+    def __init__(self):
+        self._cache = {}
+
     def generate(self, rng, tier):
-        n = 110 if tier == "quick" else 3000
+        n = 300 if tier == "quick" else 6000
         cases = []
         for i in range(n):
+            if i % 10 == 7:
+                cases.append(near_threshold_case(rng))
+                continue
             prog, cid, nin, hp = fg.gen_circuit(rng, tier, lossy=[True, True, None, False][i % 4])
             photons = min(rng.choice([0, 1, 2, 2, 3]), 4 - hp)
             inp = fg.gen_state(rng, nin, photons)
@@ -100,7 +138,34 @@ class C04:
             out[b] = core.decode_res(r, lambda d: sorted([k, v / 1e12] for k, v in d))
         return out
 
+    def _reference(self, c):
+        """(circ, U, n, full_in, exact marginal, truncated marginal, #full states per pattern, all full-state
+        probabilities, near) for a well-formed case, None otherwise; cached per case."""
+        key = json.dumps(c, sort_keys=True)
+        if key in self._cache:
+            return self._cache[key]
+        res = None
+        try:
+            circ = self._circuit(c)
+            U = circ.U_full
+            if len(c["input"]) == circ.input_modes and all(isinstance(x, int) and x >= 0 for x in c["input"]):
+                n = circ.n_modes
+                full_in = fg.full_state(c["input"], circ.heralds["input"], U.shape[0] - n)
+                ref, trunc, nlo, allp = reference_distribution(U, n, full_in)
+                # too close to the truncation threshold to decide p > 1e-9 in floats
+                near = any(abs(p - EPS) < 1e-3 * EPS for p in allp)
+                res = (circ, U, n, full_in, ref, trunc, nlo, allp, near)
+        except Exception:  # noqa: BLE001
+            res = None
+        if len(self._cache) > 20000:
+            self._cache.clear()
+        self._cache[key] = res
+        return res
+
     def compare(self, c, a, b):
+        r = self._reference(c)
+        if r is not None and r[8]:
+            return None
         for bk in ("permanent", "slos"):
             x, y = a[bk], b[bk]
             if ("ok" in x) != ("ok" in y):
@@ -109,7 +174,9 @@ class C04:
                 if x["err"] != y["err"]:
                     return f"{bk}: error class {x['err']} vs {y['err']}"
                 continue
-            d = dict_diff({tuple(k): v for k, v in x["ok"]}, {tuple(k): v for k, v in y["ok"]}, 2e-9)
+            # the exact model applies the same per-state truncation, so the dictionaries agree to float accuracy
+            # (the model prints floor(x * 1e12)); a pattern kept by one side and dropped by the other shows up
+            d = dict_diff({tuple(k): v for k, v in x["ok"]}, {tuple(k): v for k, v in y["ok"]}, TOL)
             if d:
                 return f"{bk}: {d}"
         return None
@@ -120,17 +187,19 @@ class C04:
             U = circ.U_full
         except Exception:  # noqa: BLE001
             return None
-        n = circ.n_modes
         if len(c["input"]) != circ.input_modes:
             if any("ok" in obs[b] for b in obs):
                 return "input of the wrong length was accepted"
             return None
-        full_in = fg.full_state(c["input"], circ.heralds["input"], U.shape[0] - n)
-        injected = sum(full_in)
-        ref, allp = reference_distribution(U, n, full_in)
-        if any(abs(p - EPS) < 1e-3 * EPS for p in allp):
+        r = self._reference(c)
+        if r is None:
+            return None
+        _, U, n, full_in, ref, trunc, nlo, allp, near = r
+        if near:
             return None          # too close to the truncation threshold to compare floats
+        injected = sum(full_in)
         nstates = len(allp)
+        vac = tuple([0] * n)
         dists = {}
         for b in ("permanent", "slos"):
             if "ok" not in obs[b]:
@@ -140,20 +209,36 @@ class C04:
             if any(v < 0 for v in d.values()):
                 return f"{b}: negative probability"
             tot = sum(d.values())
-            if not (1 - EPS * nstates - 1e-9 <= tot <= 1 + 1e-9):
+            # sums to one up to the documented per-state truncation
+            if not (1 - EPS * nstates - TOL <= tot <= 1 + TOL):
                 return f"{b}: distribution sums to {tot!r} (allowed truncation {EPS * nstates:.2g})"
             if any(sum(k) > injected for k in d):
                 return f"{b}: a pattern holds more photons than were injected"
             if any(len(k) != n for k in d):
                 return f"{b}: a pattern has the wrong number of modes"
-            # each pattern = its total probability over all ways the other photons were lost
             for k in set(d) | set(ref):
-                # truncation may remove up to eps per full state contributing to the pattern
-                if abs(d.get(k, 0.0) - ref.get(k, 0.0)) > EPS * nstates + 1e-9:
-                    return f"{b}: P{list(k)} = {d.get(k, 0.0)!r}, reference (sum over lost-photon configurations) {ref.get(k, 0.0)!r}"
-        dd = dict_diff(dists["permanent"], dists["slos"], 2 * EPS * nstates + 1e-9)
-        if dd:
-            return f"backends disagree: {dd}"
+                got, exact = d.get(k, 0.0), ref.get(k, 0.0)
+                if k == vac:
+                    # the vacuum pattern also receives the truncated mass (at most eps per full state)
+                    if not (exact - EPS * nlo.get(k, 0) - TOL <= got <= exact + EPS * nstates + TOL):
+                        return f"{b}: P(vacuum) = {got!r}, reference {exact!r}"
+                    continue
+                # each pattern = its total probability over all ways the other photons were lost, every
+                # full state of probability <= 1e-9 dropped (per-STATE truncation): never above the exact
+                # marginal, at most eps per lost-photon configuration below it, and equal to the truncated sum
+                if got > exact + TOL or got < exact - EPS * nlo.get(k, 0) - TOL:
+                    return (f"{b}: P{list(k)} = {got!r}, reference (sum over lost-photon configurations) {exact!r}, "
+                            f"{nlo.get(k, 0)} configurations")
+                if abs(got - trunc.get(k, 0.0)) > TOL:
+                    return (f"{b}: P{list(k)} = {got!r}, reference with states <= 1e-9 dropped individually "
+                            f"{trunc.get(k, 0.0)!r} (exact marginal {exact!r})")
+        # same truncation rule in both back ends: they agree to float accuracy on every non-vacuum pattern,
+        # and within the truncated mass on the vacuum pattern
+        a, bb = dists["permanent"], dists["slos"]
+        for k in sorted(set(a) | set(bb)):
+            tol = TOL if k != vac else 2 * EPS * nstates + TOL
+            if abs(a.get(k, 0.0) - bb.get(k, 0.0)) > tol:
+                return f"backends disagree: state {list(k)}: {a.get(k, 0.0)!r} vs {bb.get(k, 0.0)!r}"
         return None
 
     def nontrivial(self, c, obs):
